@@ -1503,7 +1503,7 @@ class SimulatedBinaryCrossover(Crossover):
                         lb, ub = param['bounds'][0], param['bounds'][1]
 
                         # calculates c1
-                        beta = 1.0 + (2.0 * (y1 - lb) / (y2 - y1))
+                        beta = 1.0 + (2.0 * max(y1 - lb, 0.0) / (y2 - y1))
                         alpha = 2.0 - pow(beta, -(self.distribution_index + 1.0))
 
                         rand = random.random()
@@ -1515,7 +1515,7 @@ class SimulatedBinaryCrossover(Crossover):
                         c1 = 0.5 * (y1 + y2 - betaq * (y2 - y1))
 
                         # calculates c2
-                        beta = 1.0 + (2.0 * (ub - y2) / (y2 - y1))
+                        beta = 1.0 + (2.0 * max(ub - y2, 0.0) / (y2 - y1))
                         alpha = 2.0 - pow(beta, -(self.distribution_index + 1.0))
 
                         if rand <= (1.0 / alpha):
